@@ -499,18 +499,18 @@ func condenseWHSP(b string) string {
 	var builder strings.Builder
 
 	for i := 0; i < len(b); i++ {
-		c := rune(b[i])
+		c := b[i]
 		switch c {
-		case rune(9), rune(32): // match either WHSP or horizontal tab
+		case 9, 32: // match either WHSP or horizontal tab
 			if !last {
 				last = true
-				builder.WriteRune(rune(32)) // Add WHSP
+				builder.WriteByte(32) // Add WHSP
 			}
 		default: // match all other characters
 			if last {
 				last = false
 			}
-			builder.WriteRune(c)
+			builder.WriteByte(c)
 		}
 	}
 
